@@ -210,8 +210,50 @@ def eof_before_closeok(ctx, prog, pid_role='eof-before-closeok'):
             m = ctx.decide(f"{ctx.pid.lower()}.eof-while-steady[{pre}]", s.pc, z3.BoolVal(out == 'UnexpectedSocketClose'),
                            group='an EOF before the close handshake is complete (state still Steady, sealed or not) ends the event with UnexpectedSocketClose')
             if m is not None:
-                ctx.report(pid_role, f"EOF in state Steady (after {pre}) gives {out} instead of UnexpectedSocketClose", {'preceding': pre, 'result': out, 'sealed': str(m.eval(sym('sealed0', z3.BoolSort()), model_completion=True))},
-                           E2E_EOF_IN_CLOSE, profiles=('dev',), hang_is_violation=True)
+                if pre == 'none':
+                    ctx.report(pid_role, f"EOF in state Steady (after {pre}) gives {out} instead of UnexpectedSocketClose", {'preceding': pre, 'result': out, 'sealed': str(m.eval(sym('sealed0', z3.BoolSort()), model_completion=True))},
+                               E2E_EOF_IN_CLOSE, profiles=('dev',), hang_is_violation=True)
+                else:
+                    # frames and the end of stream in one readable wake-up: replayed on the real handler over a scripted stream (a TCP peer cannot
+                    # be made to deliver data and FIN to one read reliably)
+                    ctx.report(pid_role + '-after-frames', f"EOF in state Steady in the same wake-up as {pre} frame(s) gives {out} instead of UnexpectedSocketClose", {'preceding': pre, 'result': out, 'sealed': str(m.eval(sym('sealed0', z3.BoolSort()), model_completion=True))},
+                               EOF_AFTER_FRAMES, inject_into='src/io_loop/mod.rs', profiles=('dev',), hang_is_violation=True, panic_is_violation=True)
+
+
+EOF_AFTER_FRAMES = r'''
+use super::*;
+struct EofAfter { data: Vec<u8>, pos: usize, chunk: usize }
+impl std::io::Read for EofAfter {
+    fn read(&mut self, buf: &mut [u8]) -> std::io::Result<usize> {
+        let n = std::cmp::min(std::cmp::min(buf.len(), self.chunk), self.data.len() - self.pos);
+        buf[..n].copy_from_slice(&self.data[self.pos..self.pos + n]); self.pos += n; Ok(n)     // Ok(0) = end of stream once the data is used up
+    }
+}
+impl std::io::Write for EofAfter { fn write(&mut self, buf: &[u8]) -> std::io::Result<usize> { Ok(buf.len()) } fn flush(&mut self) -> std::io::Result<()> { Ok(()) } }
+impl mio::Evented for EofAfter {
+    fn register(&self, _: &mio::Poll, _: mio::Token, _: mio::Ready, _: mio::PollOpt) -> std::io::Result<()> { Ok(()) }
+    fn reregister(&self, _: &mio::Poll, _: mio::Token, _: mio::Ready, _: mio::PollOpt) -> std::io::Result<()> { Ok(()) }
+    fn deregister(&self, _: &mio::Poll) -> std::io::Result<()> { Ok(()) }
+}
+impl crate::IoStream for EofAfter {}
+#[test]
+fn verif_replay_eof_after_frames() {
+    let mut bad: Vec<String> = Vec::new();
+    for frames in 0..4usize { for chunk in [1usize, 8, 4096].iter() { for sealed in [false, true].iter() {
+        let mut io = IoLoop::new(crate::ConnectionTuning::default()).unwrap();
+        let (ch0_slot, h0) = Channel0Slot::new(16);
+        let mut state = ConnectionState::Steady(ch0_slot);
+        if *sealed { io.inner.seal_writes(); }    // the client's Close is queued, no CloseOk yet
+        let mut data = Vec::new();
+        for _ in 0..frames { data.extend_from_slice(&[8u8, 0, 0, 0, 0, 0, 0, 0xCE]); }
+        let mut s = EofAfter { data, pos: 0, chunk: *chunk };
+        let r = io.handle_steady_event(&mut s, &mut state, Event::new(Ready::readable(), STREAM));
+        match r { Err(Error::UnexpectedSocketClose) => (), other => bad.push(format!("frames={}:chunk={}:sealed={}:{:?}", frames, chunk, sealed, other.map_err(|e| format!("{:?}", e))).replace(' ', "")) }
+        std::mem::forget(h0);
+    } } }
+    if bad.is_empty() { println!("VERIF-REPLAY-OK"); } else { println!("VERIF-REPLAY-VIOLATION eof-after-frames {}", bad.join(";")); }
+}
+'''
 
 
 E2E_EOF_IN_CLOSE = r'''
